@@ -1250,10 +1250,11 @@ Proof.
 Qed.
 
 (* ------------------------------------------------------------------ the flush after the connection is there *)
-Definition flush_body (new dirty deleted : list nat) : M :=
+Definition flush_body_k (k : option nat) (c : Z) (new dirty deleted : list nat) : M :=
   foldM (organize_pending deleted) new ;;
-  withst (fun st0 => foldM do_stmt (stmts_of st0 new dirty deleted)) ;;
+  withst (fun st0 => exec_f k c (stmts_of st0 new dirty deleted)) ;;
   finalize new dirty deleted.
+Definition flush_body := flush_body_k None 0%Z.
 
 Lemma flush_exec_unfold : forall new dirty deleted, flush_exec new dirty deleted = (provision ;; flush_body new dirty deleted).
 Proof. reflexivity. Qed.
@@ -1279,7 +1280,30 @@ Section FlushBody.
   Hypothesis Hdirty : forall x, In x dirty <-> (x < n /\ oin (objs s0 x) = true /\ omod (objs s0 x) = true /\ ~ In x deleted).
   Hypothesis Hdnd : NoDup dirty.
 
-  Theorem flush_body_spec : forall r sZ, flush_body new dirty deleted s0 = (r, sZ) -> r <> Unmodelled ->
+  (* everything before finalize_flush_changes only loads and executes statements *)
+  Lemma flush_pre_spec : forall fk fc r sX,
+    (foldM (organize_pending deleted) new ;; withst (fun st0 => exec_f fk fc (stmts_of st0 new dirty deleted))) s0 = (r, sX) ->
+    r <> Unmodelled -> SigL s0 g f sX.
+  Proof.
+    intros fk fc r sX H Hr.
+    pose proof (sigl0 s0 g f G0 J0 R0) as L0.
+    apply bind_inv in H. destruct H as [[sa [Ha H]]|[Ha Hn]].
+    2:{ destruct (organize_ok s0 g f GC new s0 r sX L0 eq_refl Ha Hr) as [_ [X _]]. exact X. }
+    destruct (organize_ok s0 g f GC new s0 Ok sa L0 eq_refl Ha) as [_ [La Hwa]]; [discriminate|].
+    rewrite withst_eq in H.
+    pose proof (sig_init s0 g f dirty G0 Hdirty sa La Hwa) as Sa.
+    assert (Wf : WfL (stmts_of sa new dirty deleted)).
+    { apply stmts_of_wf; auto; try apply (g_nodup _ _ _ _ _ G0). intros x Hx. apply Hdirty in Hx. tauto. }
+    change (stmts_of sa (snew s0) dirty (sdel s0)) with (stmts_of sa new dirty deleted) in Sa.
+    destruct (exec_f_char _ _ _ _ _ _ H Hr) as [X1 X2].
+    destruct r as [|c0|]; [|destruct X2 as [pre [suf [r0 [P1 [P2 P3]]]]]; [discriminate|]|congruence].
+    - specialize (X1 eq_refl).
+      rewrite <- (app_nil_r (stmts_of sa new dirty deleted)) in Sa, Wf.
+      exact (stmts_prefix s0 g f GC _ [] _ _ _ _ _ Sa Wf X1 Hr).
+    - rewrite P1 in Sa, Wf. exact (stmts_prefix s0 g f GC pre suf _ _ _ _ _ Sa Wf P2 P3).
+  Qed.
+
+  Theorem flush_body_spec : forall fk fc r sZ, flush_body_k fk fc new dirty deleted s0 = (r, sZ) -> r <> Unmodelled ->
     (r = Ok -> exists fZ, stack sZ = fZ :: rest /\
         fid fZ = fid f /\ fnested fZ = fnested f /\ fstate fZ = fstate f /\ frbexc fZ = frbexc f /\ fconn fZ = fconn f /\
         Good (objs sZ) n (work sZ) [] [] /\ J (objs sZ) n /\ Rel g fZ (objs sZ) n [] [] (work sZ) /\
@@ -1288,7 +1312,7 @@ Section FlushBody.
         nfid sZ = nfid s0 /\ eoc sZ = eoc s0 /\ handles sZ = handles s0) /\
     (r <> Ok -> SigL s0 g f sZ).
   Proof.
-    intros r sZ H Hr. unfold flush_body in H.
+    intros fk fc r sZ H Hr. unfold flush_body_k in H.
     pose proof (sigl0 s0 g f G0 J0 R0) as L0.
     apply bind_inv in H. destruct H as [[sa [Ha H]]|[Ha Hn]].
     2:{ destruct (organize_ok s0 g f GC new s0 r sZ L0 eq_refl Ha Hr) as [X _]. congruence. }
@@ -1298,7 +1322,11 @@ Section FlushBody.
     assert (Wf : WfL (stmts_of sa new dirty deleted)).
     { apply stmts_of_wf; auto; try apply (g_nodup _ _ _ _ _ G0). intros x Hx. apply Hdirty in Hx. tauto. }
     destruct H as [[s1 [H1 H]]|[H1 Hn]].
-    2:{ destruct (stmts_fold s0 g f GC _ _ _ _ _ _ Sa Wf H1 Hr) as [_ X]. split; [congruence|auto]. }
+    2:{ destruct (exec_f_char _ _ _ _ _ _ H1 Hr) as [_ X]. destruct (X Hn) as [pre [suf [r0 [P1 [P2 P3]]]]].
+        split; [congruence|]. intros _. change (stmts_of sa (snew s0) dirty (sdel s0)) with (stmts_of sa new dirty deleted) in Sa.
+        rewrite P1 in Sa, Wf.
+        exact (stmts_prefix s0 g f GC pre suf _ _ _ _ _ Sa Wf P2 P3). }
+    destruct (exec_f_char _ _ _ _ _ _ H1) as [X0 _]; [discriminate|]. specialize (X0 eq_refl). clear H1. rename X0 into H1.
     destruct (stmts_fold s0 g f GC _ _ _ _ _ _ Sa Wf H1) as [X _]; [discriminate|].
     destruct (X eq_refl) as [rho [rv [S1 [U1 [U2 U3]]]]]. clear X.
     pose proof (sg_l _ _ _ _ _ _ _ S1) as L1.
